@@ -68,6 +68,12 @@ M.update({
     "changeset_byvalue_get_no_remove": ("src/changeset.rs", "unsafe impl<'a, T> Join for &'a ChangeSet<T> {\n    type Mask = &'a BitSet;\n    type Type = &'a T;\n    type Value = &'a DenseVecStorage<T>;\n\n    unsafe fn open(self) -> (Self::Mask, Self::Value) {\n        (&self.mask, &self.inner)\n    }", "unsafe impl<'a, T> Join for &'a ChangeSet<T> {\n    type Mask = &'a BitSet;\n    type Type = &'a T;\n    type Value = &'a DenseVecStorage<T>;\n\n    unsafe fn open(self) -> (Self::Mask, Self::Value) {\n        (&self.mask, &self.inner)\n    }", "-"),
 })
 
+M.update({
+    "atomic_decrement_load_store": ("src/world/entity.rs", "    let mut prev = i.load(Ordering::Relaxed);\n    while prev != 0 {\n        #[cfg(feature = \"verif-hooks\")]\n        crate::verif::yield_point(crate::verif::point::DEC_BEFORE_CAS);\n        match i.compare_exchange_weak(prev, prev - 1, Ordering::Relaxed, Ordering::Relaxed) {\n            Ok(x) => return Some(x),\n            Err(next_prev) => prev = next_prev,\n        }\n    }\n    None", "    let prev = i.load(Ordering::Relaxed);\n    if prev == 0 {\n        return None;\n    }\n    i.store(prev - 1, Ordering::Relaxed);\n    Some(prev)", "C10"),
+    "atomic_increment_load_store": ("src/world/entity.rs", "    let mut prev = i.load(Ordering::Relaxed);\n    while prev != usize::MAX {\n        #[cfg(feature = \"verif-hooks\")]\n        crate::verif::yield_point(crate::verif::point::INC_BEFORE_CAS);\n        match i.compare_exchange_weak(prev, prev + 1, Ordering::Relaxed, Ordering::Relaxed) {\n            Ok(x) => return Some(x),\n            Err(next_prev) => prev = next_prev,\n        }\n    }\n    None", "    let prev = i.load(Ordering::Relaxed);\n    if prev == usize::MAX {\n        return None;\n    }\n    i.store(prev + 1, Ordering::Relaxed);\n    Some(prev)", "C10"),
+    "atomic_decrement_cas_ignores_failure": ("src/world/entity.rs", "        match i.compare_exchange_weak(prev, prev - 1, Ordering::Relaxed, Ordering::Relaxed) {\n            Ok(x) => return Some(x),\n            Err(next_prev) => prev = next_prev,\n        }\n    }\n    None\n}\n\n#[cfg(test)]", "        match i.compare_exchange_weak(prev, prev - 1, Ordering::Relaxed, Ordering::Relaxed) {\n            Ok(x) => return Some(x),\n            Err(_) => return Some(prev),\n        }\n    }\n    None\n}\n\n#[cfg(test)]", "C10"),
+})
+
 
 def sh(cmd, **kw):
     return subprocess.run(cmd, shell=True, **kw)
